@@ -44,12 +44,14 @@ def _in_model(ex, a, b):
 
 
 split = Contract(
-    'C08', F, '_BaseLayout._split', params=dict(cls=NoneS(), name=NameS, delimiter=DelimS),
+    'C08', F, '_BaseLayout._split', params=dict(cls=RefS('LayoutClass', _reserved=SetS(PartS)), name=NameS, delimiter=DelimS),
     ensures=[('every_returned_part_is_a_safe_path_component', lambda s: forall(lambda i: implies(
         (i >= 0) & (i < s.result.len), safe(s.result[i])))),
         ('empty_only_for_INBOX', lambda s: implies(s.result.len == 0, s.name == N_INBOX))],
     raises={FileNotFoundError: []}, raises_only=(FileNotFoundError,),
-    calls={'name.split': _split_model},
+    calls={'name.split': _split_model,
+           # ASSUMED: _fits only inspects the parts (os.fsencode / len); any answer is allowed for
+           'cls._fits': lambda ex, frame, e, base=None: (ex.eval_args(e, frame), VBool(z3.Bool(fresh_name('fits'))))[1]},
     loops={0: Loop(invariant=[('prefix_safe', lambda s: forall(lambda i: implies((i >= 0) & (i < s.k), safe(s.parts[i]))))])},
     modifies=[], returns=ListS(PartS), pure=True)
 split.str_consts = {'INBOX': N_INBOX, '': P_EMPTY, '.': P_DOT, '..': P_DOTDOT}
